@@ -22,7 +22,7 @@ pub fn def() -> PropDef {
         rule: "all input classes of C01 plus a hostile class (huge declared counts in every header field, 20-40 \
                digit numbers, over-long binary varints, arbitrary tails), documents behind a byte order mark or \
                stray line end, and one short token repeated 10^3..10^6 times inside a valid document, for every parser (streaming and \
-               collecting parse()), literal type and config, delivered one-shot or through a generated feed, in \
+               collecting parse()), literal type and config, delivered one-shot or through a generated feed (read sizes, interruptions, chunk size, constructor; one in ten ends in an injected I/O error), in \
                a build with overflow checks + debug assertions and in a plain release build. Each case runs in an \
                isolated worker process with a counting allocator and a CPU watchdog. Oracle: the outcome is a \
                value (clean end, syntax error, I/O error) - not a panic, not a signal/abort (worker death is \
@@ -58,6 +58,7 @@ pub fn check(c: &Case, obs: &mut Obs) -> CheckResult {
     obs.class(format!("parser/{}", spec.parser.name()));
     obs.class(format!("lit/{}", spec.lit_name()));
     obs.class(format!("input/{}", c.input.class));
+    obs.class_if(feed.sched.fail_at.is_some(), "failing-source");
     obs.class(match &t.fin {
         Final::End => "outcome/clean-end",
         Final::Syntax { .. } => "outcome/syntax-error",
@@ -103,8 +104,18 @@ fn run(ctx: &Ctx) {
         ctx.note("counting allocator not installed: heap bound not checked");
     }
     let n = ctx.share(ctx.tier.pick(1_600_000, 80_000_000));
-    let strat = (input_strategy(12, true), proptest::option::weighted(0.4, feed_strategy()))
-        .prop_map(|(input, feed)| Case { input, feed });
+    // two feeds in five are generated; a quarter of those fail after a generated number of bytes
+    let strat = (
+        input_strategy(12, true),
+        proptest::option::weighted(0.4, feed_strategy()),
+        proptest::option::weighted(0.25, (any::<u16>(), crate::source::errkind_strategy())),
+    )
+        .prop_map(|(input, mut feed, fail)| {
+            if let (Some(f), Some((frac, kind))) = (feed.as_mut(), fail) {
+                f.sched.fail_at = Some(((frac as usize * (input.bytes.len() + 1)) >> 16, kind));
+            }
+            Case { input, feed }
+        });
     ctx.run_cases("robustness", n, strat, check);
     // long documents (several 16 KiB chunks, so that the buffer is realigned with the default
     // configuration and with sources that fill whatever slice they are offered)
